@@ -1112,7 +1112,8 @@ StylesheetConstructionContextDefault::createXalanMatchPatternData(
             const XalanDOMString&   theTargetString,
             const XPath&            theMatchPattern,
             const XalanDOMString&   thePatternString,
-            XPath::eMatchScore      thePriority)
+            XPath::eMatchScore      thePriority,
+            size_type               theAlternative)
 {
     return m_matchPatternDataAllocator.create(
             theTemplate,
@@ -1120,7 +1121,8 @@ StylesheetConstructionContextDefault::createXalanMatchPatternData(
             theTargetString,
             theMatchPattern,
             thePatternString,
-            thePriority);
+            thePriority,
+            theAlternative);
 }
 
 
